@@ -6,6 +6,7 @@ CONSTANTS
   Keys = {}
   Vals = {}
   Prunings <- PruningsSel
+  Strategies = {}
   PrunSel = {1}
   MaxVer = 100000
   MaxWrites = 100000
@@ -16,5 +17,7 @@ CONSTANTS
   CrashPlan = FALSE
   CrashKind = "clean"
   TransientFirst = FALSE
+  MaxLoads = 0
+  LoadScope = "any"
   ObsKind = {}
 CHECK_DEADLOCK FALSE
